@@ -69,6 +69,9 @@ var progCache = map[string]*Prog{}
 
 // loadResolve loads util/resolve/... from the working tree of repoRoot.
 func loadResolve(goarch string, withSSA bool) *Prog {
+	if goarch == "" {
+		goarch = archOverride
+	}
 	key := goarch
 	if p := progCache[key]; p != nil && (!withSSA || p.SSA != nil) {
 		return p
